@@ -42,7 +42,7 @@ type aOp struct {
 	Kind       string `json:"kind"` // build | lock | lbuild
 	Variant    int    `json:"variant"`
 	Plant      bool   `json:"plant,omitempty"`       // the variant's apks are planted as raw .apk files in the cache; HTTP (index included) serves variant 0
-	LockTamper string `json:"lock_tamper,omitempty"` // lbuild: zero | swap | malformed
+	LockTamper string `json:"lock_tamper,omitempty"` // lbuild: zero | swap | malformed | bare (right checksum, no Q1 prefix)
 	LockTarget int    `json:"lock_target,omitempty"`
 }
 
@@ -240,7 +240,7 @@ func (authSuite) Gen(r *Rng, i int, tier string) any {
 			op.Plant = true
 		}
 		if op.Kind == "lbuild" && r.Chance(30) {
-			op.LockTamper = Pick(r, []string{"zero", "swap", "malformed"})
+			op.LockTamper = Pick(r, []string{"zero", "swap", "malformed", "bare"})
 			op.LockTarget = r.Intn(np)
 		}
 		c.Ops = append(c.Ops, op)
@@ -270,13 +270,15 @@ func pkgIndexOfPath(pkgs []aPkg, path string) int {
 	return 0
 }
 
+// q1ToHex: what a checksum string denotes, in the driver's notation: the digest, `~digest` when the `Q1`
+// prefix is missing (bare base64), `!` when the payload is not base64.
 func q1ToHex(s string) string {
-	if !strings.HasPrefix(s, "Q1") {
-		return "!"
-	}
-	b, err := base64.StdEncoding.DecodeString(s[2:])
+	b, err := base64.StdEncoding.DecodeString(strings.TrimPrefix(s, "Q1"))
 	if err != nil {
 		return "!"
+	}
+	if !strings.HasPrefix(s, "Q1") {
+		return "~" + hex.EncodeToString(b)
 	}
 	return hex.EncodeToString(b)
 }
@@ -286,8 +288,9 @@ func errTag(err error) string {
 		return "ok"
 	}
 	m := err.Error()
-	for _, kv := range [][2]string{{"checksum mismatch:", "err:filesum"}, {"checksum is nil", "err:norecord"}, {"decoding hex checksum", "err:badrecord"},
-		{"control section", "err:control"}, {"data section", "err:data"}, {"datahash", "err:datahash"}, {"404", "err:404"}, {"unexpected checksum", "err:control"}} {
+	for _, kv := range [][2]string{{"control section checksum mismatch", "err:control"}, {"decoding checksum", "err:control"}, {"data section hash mismatch", "err:data"},
+		{"datahash", "err:datahash"}, {"checksum mismatch:", "err:filesum"}, {"checksum is nil", "err:norecord"}, {"decoding hex checksum", "err:badrecord"},
+		{"404", "err:404"}} {
 		if strings.Contains(m, kv[0]) {
 			return kv[1]
 		}
@@ -328,13 +331,13 @@ func (w *aWorld) oracle(layout map[string][]byte, expected []string) string {
 		if !ok {
 			return "fail:" + p.Name + " missing from the installed db"
 		}
-		if got != expected[i] {
+		if got != strings.TrimPrefix(expected[i], "~") {
 			return fmt.Sprintf("fail:%s installed with control checksum %s, index/lock records %s", p.Name, got, expected[i])
 		}
 		fj, fk := -1, -1
 		for j := range w.Pkgs {
 			for k := range w.Pkgs[j].Alts {
-				if sha1hex(w.Ctl[j][k].Bytes) == expected[i] {
+				if sha1hex(w.Ctl[j][k].Bytes) == strings.TrimPrefix(expected[i], "~") {
 					fj, fk = j, k
 				}
 			}
@@ -380,6 +383,8 @@ func tamperLock(lock []byte, target string, mode string, swapWith string) ([]byt
 		e["checksum"] = "Q1" + base64.StdEncoding.EncodeToString(make([]byte, 20))
 	case "malformed":
 		e["checksum"] = "Q1!!not-base64!!"
+	case "bare":
+		e["checksum"] = strings.TrimPrefix(e["checksum"].(string), "Q1")
 	case "swap":
 		if o := find(swapWith); o != nil && swapWith != target {
 			e["checksum"] = o["checksum"]
